@@ -16,6 +16,11 @@ input variation (optional fields, the expected table does not depend on them):
                an integer raster, negative for unsigned, beyond the dtype range); `nd` is then a code equal to no cell
   dims         names of the two spatial dimensions; catdim: name of the category dimension (3-D)
   layer        3-D: position of the category dimension, 0 | 1 | 2 | -1 | -2
+  keys         stats: column names under which the reducers named in `stats` are registered (a dict stats_funcs of
+               the worker's own callables); a key may be a built-in NAME carrying a different reducer
+sequence job = {fn:"seq", share:"both"|"zones"|"values", steps:[job, job, ...]}: the steps are run one after the other
+               on the SAME zones and/or values DataArray objects, whose buffers are edited in place to the content of
+               the next step (share="zones": a new values object per step, and vice versa).  Output: {"seq":[case...]}
 """
 import json
 import math
@@ -39,6 +44,17 @@ USER_REDUCERS = {
     "sumsq": lambda z: (z.astype(np.float64) ** 2).sum(),
     "n": lambda z: len(z),
 }
+# the user's own callables for every reducer of the family (used whenever stats_funcs is passed as a dict with `keys`)
+OWN = {
+    "mean": lambda z: z.sum() / len(z),
+    "max": lambda z: z.max(),
+    "min": lambda z: z.min(),
+    "sum": lambda z: z.sum(),
+    "std": lambda z: z.std(),
+    "var": lambda z: z.var(),
+    "count": lambda z: len(z),
+}
+OWN.update(USER_REDUCERS)
 INT_STATS = {"max", "min", "sum", "count", "dsum", "range", "sumsq", "n"}
 SCALE_POW = {"mean": 1, "max": 1, "min": 1, "sum": 1, "std": 2, "var": 2, "count": 0, "dsum": 1, "range": 1,
              "sumsq": 2, "n": 0}
@@ -207,16 +223,44 @@ def start_rec(on):
 
 
 # ---------------------------------------------------------------- stats
-def run_stats(j):
+def inplace(obj, new):
+    """edit the buffer of the DataArray `obj` in place so that it holds the numbers of `new` (only the cells that
+    differ are written; the object, its array and its memory stay the same)."""
+    dst = obj.data
+    diff = ~((dst == new) | ((dst != dst) & (new != new)))
+    dst[diff] = new[diff]
+
+
+def stats_inputs(j, held=None, share=""):
+    H, W, vs = j["H"], j["W"], j["vs"]
+    backend = j.get("backend", "numpy")
+    dims = list(j.get("dims") or ["y", "x"])
+    za = mk_array(j["z"], 2, j["zdt"], (H, W))
+    va = mk_array(j["v"], vs, j["vdt"], (H, W))
+    if held and share in ("both", "zones"):
+        zones = held[0]
+        inplace(zones, za)
+    else:
+        zones = xr.DataArray(wrap(relayout(za, j.get("zlay")), backend), dims=dims)
+    if held and share in ("both", "values"):
+        values = held[1]
+        inplace(values, va)
+    else:
+        values = xr.DataArray(wrap(relayout(va, j.get("vlay")), backend), dims=dims)
+    return zones, values
+
+
+def run_stats(j, held=None, share=""):
     H, W, vs = j["H"], j["W"], j["vs"]
     n = H * W
     zint = j["zdt"].startswith("int")
     vint = j["vdt"].startswith("int")
-    za = relayout(mk_array(j["z"], 2, j["zdt"], (H, W)), j.get("zlay"))
-    va = relayout(mk_array(j["v"], vs, j["vdt"], (H, W)), j.get("vlay"))
     dims = list(j.get("dims") or ["y", "x"])
     names = list(j["stats"])
-    if any(s in USER_REDUCERS for s in names):
+    keys = list(j.get("keys") or names)
+    if j.get("keys"):
+        sf = {k: OWN[s] for k, s in zip(keys, names)}
+    elif any(s in USER_REDUCERS for s in names):
         sf = {s: (USER_REDUCERS[s] if s in USER_REDUCERS else Z._DEFAULT_STATS[s]) for s in names}
     else:
         sf = names
@@ -226,8 +270,9 @@ def run_stats(j):
     if j["rt"] == "da":
         kw["return_type"] = "xarray.DataArray"
     backend = j.get("backend", "numpy")
-    zones = xr.DataArray(wrap(za, backend), dims=dims)
-    values = xr.DataArray(wrap(va, backend), dims=dims)
+    zones, values = stats_inputs(j, held, share)
+    if held is not None:
+        held[:] = [zones, values]
     case = {"n": n, "z": j["z"], "v": j["v"], "nd": j["nd"], "all": bool(j["all"]), "ids": j["ids"],
             "stats": names, "rt": j["rt"], "rows": [], "tab": [], "ras": [], "steps": 0, "si": [], "zb": [],
             "job": j, "tag": j.get("tag", "")}
@@ -246,14 +291,14 @@ def run_stats(j):
     if j["rt"] == "df":
         res = res.reset_index(drop=True)
         cols = list(res.columns)
-        if cols != ["zone"] + names:
+        if cols != ["zone"] + keys:
             case["error"] = "columns %r" % (cols,)
             return case
         case["rows"] = [enc_zone(x) for x in res["zone"].tolist()]
-        case["tab"] = [[enc_stat(s, x, vs, n) for x in res[s].tolist()] for s in names]
+        case["tab"] = [[enc_stat(s, x, vs, n) for x in res[k].tolist()] for k, s in zip(keys, names)]
     else:
         data = np.asarray(res.data)
-        if data.shape != (len(names), H, W) or list(res.coords["stats"].values) != names \
+        if data.shape != (len(names), H, W) or list(res.coords["stats"].values) != keys \
                 or list(res.dims) != ["stats"] + dims:
             case["error"] = "raster shape %r" % (data.shape,)
             return case
@@ -265,12 +310,12 @@ def run_stats(j):
 
 
 # ---------------------------------------------------------------- crosstab
-def run_crosstab(j):
+def run_crosstab(j, held=None, share=""):
     H, W, vs, dim = j["H"], j["W"], j["vs"], j["dim"]
     n = H * W
     zint = j["zdt"].startswith("int")
     vint = j["vdt"].startswith("int")
-    za = relayout(mk_array(j["z"], 2, j["zdt"], (H, W)), j.get("zlay"))
+    za = mk_array(j["z"], 2, j["zdt"], (H, W))
     dims = list(j.get("dims") or ["y", "x"])
     catdim = j.get("catdim") or "cat"
     backend = j.get("backend", "numpy")
@@ -278,24 +323,39 @@ def run_crosstab(j):
     kw = dict(agg=j["agg"], nodata_values=nodata_arg(j["nd"], vs, vint, j.get("nd_raw")))
     if not j["zall"]:
         kw["zone_ids"] = ids_arg(j["zids"], 2, zint)
+    reuse_v = bool(held) and share in ("both", "values")
     if dim == 2:
-        va = relayout(mk_array(j["v"][0], vs, j["vdt"], (H, W)), j.get("vlay"))
-        values = xr.DataArray(wrap(va, backend), dims=dims)
+        va = mk_array(j["v"][0], vs, j["vdt"], (H, W))
+        if reuse_v:
+            values = held[1]
+            inplace(values, va)
+        else:
+            values = xr.DataArray(wrap(relayout(va, j.get("vlay")), backend), dims=dims)
         if not j["call"]:
             kw["cat_ids"] = ids_arg(j["cids"], vs, vint)
     else:
         va = np.stack([mk_array(l, vs, j["vdt"], (H, W)) for l in j["v"]])
         layer = j.get("layer", 0)
         pos = layer % 3                      # where the category dimension sits: first, middle or last
-        va = relayout(np.moveaxis(va, 0, pos), j.get("vlay"))
+        va = np.moveaxis(va, 0, pos)
         vdims = list(dims)
         vdims.insert(pos, catdim)
-        values = xr.DataArray(wrap(va, backend), dims=vdims, coords={catdim: cats})
+        if reuse_v:
+            values = held[1]
+            inplace(values, va)
+        else:
+            values = xr.DataArray(wrap(relayout(va, j.get("vlay")), backend), dims=vdims, coords={catdim: cats})
         if layer != 0 or j.get("layer_explicit"):
             kw["layer"] = layer
         if not j["call"]:
             kw["cat_ids"] = [int(c) for c in j["cids"]]
-    zones = xr.DataArray(wrap(za, backend), dims=dims)
+    if held and share in ("both", "zones"):
+        zones = held[0]
+        inplace(zones, za)
+    else:
+        zones = xr.DataArray(wrap(relayout(za, j.get("zlay")), backend), dims=dims)
+    if held is not None:
+        held[:] = [zones, values]
     case = {"dim": dim, "n": n, "z": j["z"], "vs": j["v"], "cats": cats, "nd": j["nd"],
             "zall": bool(j["zall"]), "zids": j["zids"], "call": bool(j["call"]), "cids": j["cids"], "agg": j["agg"],
             "rows": [], "cols": [], "tab": [], "steps": 0, "si": [], "ev": [], "job": j, "tag": j.get("tag", "")}
@@ -350,7 +410,14 @@ def main():
     out = sys.stdout
     for j in jobs:
         try:
-            case = run_stats(j) if j["fn"] == "stats" else run_crosstab(j)
+            if j["fn"] == "seq":
+                held, cs = [], []
+                for st in j["steps"]:
+                    fn = run_stats if st["fn"] == "stats" else run_crosstab
+                    cs.append(fn(st, held, j["share"]))
+                case = {"seq": cs, "job": j}
+            else:
+                case = run_stats(j) if j["fn"] == "stats" else run_crosstab(j)
         except Exception as ex:  # worker-side failure: reported as machinery problem by the driver
             case = {"worker_error": "%s: %s" % (type(ex).__name__, ex), "job": j}
         out.write(json.dumps(case, separators=(",", ":")) + "\n")
